@@ -12,6 +12,9 @@ def run(ctx):
     plan = [
         {"scens": wcat.token_scenarios(("file", "process")), "policies": ("FIFO", "LIFO") if q else ("FIFO", "LIFO", "JOBS"), "bound": 1 if q else 2, "cap": 40000},
         {"scens": two, "policies": ("FIFO", "JOBS"), "bound": 1 if q else 2, "cap": 60000},
+        # scheduler killed while its jobs hold tokens; the restarted scheduler must reclaim them (TokenFile.watch)
+        {"scens": [k for k in wcat.kill_scenarios() if "token" in k["name"]], "policies": ("FIFO",), "kills": {"restart_bound": 0}},
+        {"scens": [k for k in wcat.kill_scenarios() if "token" in k["name"]], "policies": ("LIFO",), "kills": {"restart_bound": 0}},
     ]
     return run_w(ctx, PROPERTY, plan,
                  "the C08 workloads; endings: success, failure, aborted start (LockError), another process holding the token; at quiescence: no hang "
